@@ -203,6 +203,12 @@ Proof.
     try (exact (sp_take_elem_small _ _ _ _ _ _ _ _ _ H)).
   - cbv zeta in H. destruct (sp_sink c _ (nx + 1) v _ k i sk') as [r'|] eqn:E; [|discriminate].
     apply IH in E. injection H as <-. exact E.
+  - destruct (Nat.eqb d0 v); [discriminate|]. destruct (get_a d0 st) as [b|]; [|discriminate].
+    destruct (sp_lazy_pushes c b (nth i (a_xs a) 0) nx (N.to_nat n0)) as [[[b1 e1] n1] o1].
+    destruct o1.
+    + destruct (sp_sink c _ n1 v a k i sk') as [r'|] eqn:E; [|discriminate].
+      apply IH in E. injection H as <-. exact E.
+    + injection H as <-. cbn [panic_res s_out]. lia.
   - cbv zeta in H. destruct (sp_sink c st (nx + n0) v a k i sk') as [r'|] eqn:E; [|discriminate].
     apply IH in E. injection H as <-. exact E.
 Qed.
@@ -399,6 +405,14 @@ Definition bk_wfb (b : bkind) : bool :=
   end.
 Definition adm_vecb (c : cfg) (w : world) (vid : nat) : bool :=
   match get_vec vid w with Some vv => can_takeb c vv | None => true end.
+Definition resizableb (b : bkind) : bool := match b with BHeap | BReloc _ => true | _ => false end.
+Definition roomyb (c : cfg) (vv : vec) (m : N) : bool :=
+  fixedb (vbk vv) || (resizableb (vbk vv) && (2 * (vlen vv + m) + 2 <=? usize_max) && (c_sz c * (2 * (vlen vv + m) + 2) <=? alloc_limit)).
+Definition adm_manyb (c : cfg) (w : world) (k : sink) (d : nat) : bool :=
+  match get_vec d w with
+  | Some vv => ((sink_count k d <? 1) || can_takeb c vv) && ((sink_count k d <? 2) || roomyb c vv (sink_count k d))
+  | None => true
+  end.
 Definition adm_spliceb (c : cfg) (w : world) (vid : nat) (sb eb : bound) (n : N) : bool :=
   match get_vec vid w with
   | Some vv =>
@@ -413,7 +427,7 @@ Definition adm_spliceb (c : cfg) (w : world) (vid : nat) (sb eb : bound) (n : N)
 Definition admissibleb (c : cfg) (w : world) (o : op) : bool :=
   match o with
   | OPush _ v _ | OInsert _ v _ _ => adm_vecb c w v
-  | OPop _ _ k | ORemove _ _ _ k | OSwapRemove _ _ _ k => forallb (adm_vecb c w) (sink_dsts k)
+  | OPop _ _ k | ORemove _ _ _ k | OSwapRemove _ _ _ k => forallb (adm_manyb c w k) (sink_dsts k)
   | ONew _ bk | OCloneEmptyIn _ _ bk => bk_wfb bk
   | OClone v _ =>
       match get_vec v w with
@@ -521,6 +535,21 @@ Proof.
   split; [apply bk_wfb_sound; exact H1|]. split; [apply N.leb_le; exact H2|].
   destruct bk; apply N.leb_le; exact H3.
 Qed.
+Lemma roomyb_sound c vv m : roomyb c vv m = true -> roomy c vv m.
+Proof.
+  unfold roomyb, roomy. intros H. apply Bool.orb_true_iff in H. destruct H as [H|H].
+  - left. apply fixedb_sound. exact H.
+  - right. apply andb_prop in H. destruct H as [H H3]. apply andb_prop in H. destruct H as [H1 H2].
+    apply N.leb_le in H2, H3. split; [|split; assumption].
+    destruct (vbk vv); try discriminate; [left; reflexivity|right; eexists; reflexivity].
+Qed.
+Lemma adm_manyb_sound c w k d : adm_manyb c w k d = true -> adm_many c w d (sink_count k d).
+Proof.
+  unfold adm_manyb, adm_many. intros H vv Hg. rewrite Hg in H. apply andb_prop in H. destruct H as [H1 H2].
+  split; intros Hm.
+  - apply Bool.orb_true_iff in H1. destruct H1 as [H1|H1]; [apply N.ltb_lt in H1; lia|apply can_takeb_sound; exact H1].
+  - apply Bool.orb_true_iff in H2. destruct H2 as [H2|H2]; [apply N.ltb_lt in H2; lia|apply roomyb_sound; exact H2].
+Qed.
 Lemma admissibleb_sound c w o : admissibleb c w o = true -> admissible c w o.
 Proof.
   destruct o; cbn [admissibleb admissible]; intros H; try exact I;
@@ -530,7 +559,7 @@ Proof.
     try (apply adm_vecb_sound; exact H); try (apply bk_wfb_sound; exact H);
     try (apply adm_reserveb_sound; exact H); try (apply adm_shrinkb_sound; exact H);
     try (intros vv Hg; rewrite Hg in H; apply N.leb_le; exact H);
-    intros d Hin; apply adm_vecb_sound; rewrite forallb_forall in H; apply H; exact Hin.
+    intros d Hin; apply adm_manyb_sound; rewrite forallb_forall in H; apply H; exact Hin.
 Qed.
 Lemma Admissibleb_sound c ops : forall w, Admissibleb c w ops = true -> Admissible c w ops.
 Proof.
@@ -600,7 +629,11 @@ Definition ex_ops : list op :=
     (* two fresh values written into the spare capacity through the typed view, then set_len *)
     OReserve 9 2; OSpareWrite Typed 9 2; OGet Erased 9 4;
     (* the removal handle of 9[0] swapped with the element handle of 10[0], then dropped *)
-    OPush Erased 10 SWrap; OSwap 1 9 0 10 0; OGet Erased 10 0; OSwap 2 9 7 10 0 ].
+    OPush Erased 10 SWrap; OSwap 1 9 0 10 0; OGet Erased 10 0; OSwap 2 9 7 10 0;
+    (* lazy clones of a removal handle pushed into another vector before the handle is consumed: two go into the
+       relocating backend, then the handle is dropped; three are offered to StackN<2,8>: the third is refused and the
+       unwinding drops the handle *)
+    ORemove Erased 9 0 (KLazy 2 10 KDrop); OPop Erased 9 (KLazy 3 8 (KPush 10)) ].
 
 Example ex_spec_defined : exists rs, spec_run ex_cfg [] 1 ex_ops = Some rs /\ length rs = length ex_ops.
 Proof. eexists. split; [vm_compute; reflexivity|reflexivity]. Qed.
@@ -632,7 +665,8 @@ Example ex_outcomes :
      (0,0,[]); (0,0,[]); (2,1,[]);
      (0,0,[1]); (0,0,[1; 1; 56; 0; 56]); (2,3,[]); (0,0,[62]); (2,1,[]);
      (0,0,[]); (0,0,[]); (0,0,[64]);
-     (0,0,[]); (0,0,[]); (0,0,[61]); (2,1,[])].
+     (0,0,[]); (0,0,[]); (0,0,[61]); (2,1,[]);
+     (0,0,[]); (2,3,[])].
 Proof. vm_compute. reflexivity. Qed.
 
 (** ** Corollaries in the vocabulary of the properties *)
